@@ -28,7 +28,28 @@ func checkC06(c *evalCase) error {
 
 var c06Texts = []string{"1.5", "2.5", "-1.5", "0.5", "-0.5", "3", "10", "abc", "", " 4 ", "1e2", "-0", "0.1", "0.2", "7.25", "-2.75", "1000000", "NaN",
 	// numerals beyond the double range convert to +-Infinity, below it to zero
-	"1" + strings.Repeat("0", 309), "-1" + strings.Repeat("0", 309), "9" + strings.Repeat("9", 320) + ".5", "0." + strings.Repeat("0", 400) + "1"}
+	"1" + strings.Repeat("0", 309), "-1" + strings.Repeat("0", 309), "9" + strings.Repeat("9", 320) + ".5", "0." + strings.Repeat("0", 400) + "1",
+	// only space, tab, CR and LF are white space: these are not numerals
+	"\u00a05", "5\u00a0", "\u20031", "\v2", "3\f", "\u00852", "\u30004", "\ufeff6"}
+
+// splitText gives the text of an element as one text node or - the
+// string-value is the concatenation of ALL text descendants - as two text
+// nodes around a comment or a processing instruction.
+func splitText(t *rapid.T, s string) []xmodel.Event {
+	if s == "" {
+		return nil
+	}
+	rs := []rune(s)
+	if len(rs) < 2 || rapid.IntRange(0, 3).Draw(t, "splitText") != 0 {
+		return []xmodel.Event{{K: "T", Value: s}}
+	}
+	k := rapid.IntRange(1, len(rs)-1).Draw(t, "splitAt")
+	mid := xmodel.Event{K: "C", Value: "9"}
+	if rapid.Bool().Draw(t, "splitByPI") {
+		mid = xmodel.Event{K: "P", Local: "t", Value: "7"}
+	}
+	return []xmodel.Event{{K: "T", Value: string(rs[:k])}, mid, {K: "T", Value: string(rs[k:])}}
+}
 
 func TestC06(t *testing.T) {
 	runWitnesses(t, "C06")
@@ -107,9 +128,7 @@ func TestC06(t *testing.T) {
 		for i := 0; i < n; i++ {
 			s := c06Texts[rapid.IntRange(0, len(c06Texts)-1).Draw(t, "text")]
 			ev = append(ev, xmodel.Event{K: "S", Local: "a"})
-			if s != "" {
-				ev = append(ev, xmodel.Event{K: "T", Value: s})
-			}
+			ev = append(ev, splitText(t, s)...)
 			ev = append(ev, xmodel.Event{K: "E"})
 			refs = append(refs, fmt.Sprintf("/0/%d", i))
 		}
@@ -177,9 +196,7 @@ func TestC06(t *testing.T) {
 				exact = false
 			}
 			ev = append(ev, xmodel.Event{K: "S", Local: "a"}, xmodel.Event{K: "A", Local: "v", Value: s})
-			if s != "" {
-				ev = append(ev, xmodel.Event{K: "T", Value: s})
-			}
+			ev = append(ev, splitText(t, s)...)
 			ev = append(ev, xmodel.Event{K: "E"})
 		}
 		ev = append(ev, xmodel.Event{K: "E"})
